@@ -55,7 +55,7 @@ func runAggVerify(raw json.RawMessage, seed int64) (res Result) {
 		}
 	}()
 	w := NewWorld(seed)
-	if seed%3 == 0 {
+	if w.Rng.Intn(3) == 0 { // (not seed%3: the case index and the seed are correlated)
 		// distinct formal messages that share their BYTES and differ only by their per-index hasher (domain tag)
 		m1 := w.Msg("m1")
 		for _, name := range []string{"m2", "m3"} {
